@@ -64,7 +64,7 @@ contract(SOL + "HIadj_pre_anthesis.py", "HIadj_pre_anthesis",
          requires=["implies(Crop_dHI_pre > 0, Crop_dHI_pre > 1)", "NewCond_B >= 0"],
          returns=[("Fpre", "Real")],
          ensures=[("C05.fpre_range", "0 <= Fpre and Fpre <= 1 + max(Crop_dHI_pre, 0) / 100")],
-         options=dict(tier_b_kinds=("div_nonzero",)),
+         options=dict(tier_b_sites=[("div_nonzero", "NewCond_B / NewCond_B_NS")]),
          note="B/B_NS: the no-stress biomass at the start of yield formation is positive in every season with any potential transpiration; not a state invariant "
               "that is proved here, so the division is served by the bounded C16 check only",
          props=("C05", "C16"))
@@ -196,7 +196,10 @@ contract(SOL + "canopy_cover.py", "canopy_cover",
                   "InitCond.ccx_act", "InitCond.ccx_act_ns", "InitCond.ccx_w", "InitCond.ccx_w_ns", "InitCond.cc0_adj", "InitCond.protected_seed",
                   "InitCond.crop_dead", "InitCond.premat_senes", "InitCond.ccx_early_sen", "InitCond.t_early_sen"],
          options=dict(inline=("cc_development", "cc_required_time", "adjust_CCx", "update_CCx_CDC"),
-                      tier_b_kinds=("log_positive", "div_nonzero"),
+                      # the sites that depend on crop-state invariants not proved inductive here (canopy below the cover at the start of early senescence;
+                      # previous-day canopy strictly between the initial cover and CCx inside cc_required_time): every other log/division site IS claimed
+                      tier_b_sites=[("div_nonzero", "cc_prev / CCo"), ("log_positive", "cc_prev / CCo"), ("div_nonzero", "CCx - cc_prev"), ("log_positive", "CCx - cc_prev"), ("div_nonzero", "0.25 * CCx * CCx / CCo"), ("div_nonzero", "cc_prev / (1 - 0.05"),
+                                    ("log_positive", "InitCond_CC / NewCond.ccx_early_sen")],
                       # cut before the adjusted covers are computed: only the sign/order facts of the two covers are carried over
                       cuts=[dict(before="NewCond.canopy_cover_adj = <anything but the constant 0>", before_re=r"NewCond\.canopy_cover_adj = (?!0$)",
                                  **{"assert": ["NewCond.canopy_cover >= 0", "NewCond.canopy_cover_ns >= NewCond.canopy_cover",
@@ -205,8 +208,9 @@ contract(SOL + "canopy_cover.py", "canopy_cover",
                                                "NewCond.ccx_w_ns >= 0", "NewCond.ccx_early_sen >= 0", "NewCond.t_early_sen >= 0"]},
                                  havoc=["NewCond.canopy_cover", "NewCond.canopy_cover_ns", "NewCond.cc0_adj", "NewCond.ccx_act", "NewCond.ccx_act_ns",
                                         "NewCond.ccx_w", "NewCond.ccx_w_ns", "NewCond.ccx_early_sen", "NewCond.t_early_sen"])]),
-         note="the log/division sites of the senescence and re-growth branches depend on a crop-state invariant (canopy never exceeds the cover at the start "
-              "of early senescence, positive adjusted rates) that is not proved inductive here: those safety clauses are served by the bounded C16 check only",
+         note="seven log/division sites (inside cc_required_time, update_CCx_CDC and the early-senescence branch) depend on a crop-state invariant (previous-day canopy strictly "
+              "between the initial cover and CCx, canopy below the cover at the start of early senescence, bounded elapsed time) that is not proved inductive here: those "
+              "sites are served by the bounded C16 check only; every other log/division site of the function and of its inlined helpers is claimed and discharged",
          props=("C04", "C05", "C12", "C16"))
 
 # ----------------------------------------------------------------------------- root_development  (summary contract ASSUMED at the daily step's call site; body verified below)
@@ -258,7 +262,7 @@ contract(SOL + "root_development.py", "root_development#body",
              "Crop.Zmin > 0 and Crop.Zmin <= Crop.Zmax", "Crop.fshape_r > 0", "0 <= Crop.PctZmin and Crop.PctZmin <= 100",
              "Crop.MaxRooting > Crop.Emergence and Crop.Emergence >= 0",
              "0 <= Crop.p_up[1] and Crop.p_up[1] < 1", "Crop.fshape_w[1] != 0", "Crop.fshape_ex != 0",
-             "Crop.SxBot > 0", "Crop.SxTop >= 0", "NewCond_Zroot >= 0", "gdd >= 0", "0 <= NewCond_TrRatio",
+             "Crop.SxBot > 0", "Crop.SxTop >= 0", "NewCond_Zroot >= 0", "gdd >= 0", "0 <= NewCond_TrRatio", "NewCond_rCor >= 0",
              # state invariant carried from the previous day (established by this function: clause C05.root_at_least_zmin)
              "implies(growing_season and NewCond_DAP != 1, NewCond_Zroot >= Crop.Zmin)",
              "implies(growing_season, max(NewCond_Zroot, Crop.Zmin) + Crop.Zmax <= prof.dzsum[n-1])",
@@ -274,6 +278,11 @@ contract(SOL + "root_development.py", "root_development#body",
                   ("C05.root_daily_gain_at_most_potential", "implies(growing_season, Zroot <= ite(NewCond_DAP == 1, Crop.Zmin, NewCond_Zroot) + Crop.Zmax - Crop.Zmin)"),
                   ("C05.root_rcor_at_least_one_in_season", "implies(growing_season, rCor >= 1)"),
                   ("C05.root_rcor_kept_out_of_season", "implies(not growing_season, rCor == NewCond_rCor)"),
+                  # REFINEMENT: the clauses of the summary contract (assumed at the daily step's call site) re-proved verbatim on the real body; the summary's
+                  # fourth clause (depth inside the profile) is not among them: whole-history envelope, bounded only
+                  ("C05.refines_summary.root_trusted_range", "implies(not growing_season, Zroot == 0)"),
+                  ("C05.refines_summary.root_trusted_nonneg", "Zroot >= 0"),
+                  ("C05.refines_summary.root_trusted_rcor", "rCor >= 0"),
                   ],
          assigns=[],
          options=dict(function="root_development",
